@@ -565,6 +565,10 @@ class ExtModel:
     def b_hasattr(self, interp, st, args, kwargs, node):
         return [("val", st, BoolV(("hasattr", args[0].key(), args[1].key())))]
 
+    def b_property(self, interp, st, args, kwargs, node):
+        # property(fget, fset, ...): kept as an object; attribute loads / stores on instances go through it
+        return [("val", st, ExtObj(f"property@{self._site(interp, st, node)}", "property", args, kwargs))]
+
     def b_getattr(self, interp, st, args, kwargs, node):
         if len(args) >= 2 and isinstance(args[1], Const) and isinstance(args[1].value, str):
             outs = interp.load_attr(st, args[0], args[1].value, node)
